@@ -328,7 +328,7 @@ pub fn run(ctx: &Ctx, rep: &mut Report) {
         });
     });
     rep.exhaustive.push(format!("all strings of length <= {max_len} over the 8-byte (floats) / 7-byte (ints) separator alphabet x {} (format, type) pairs", js.len()));
-    let per = ctx.n(3000, 300_000);
+    let per = ctx.n(3000, 60_000);
     run_prop_jobs(
         rep,
         ctx,
